@@ -548,6 +548,13 @@ class SqlImpl(TableImpl):
             left_sel = cls.compile_query(table, query, sqa_expr)
             right_sel = cls.compile_query(right_table, right_query, right_sqa_expr)
 
+            # An operand with ORDER BY / LIMIT cannot be a member of a compound select on every
+            # dialect (SQLite: syntax error), so it is wrapped in a subquery.
+            if query.order_by or query.limit is not None:
+                left_sel = sqa.select(left_sel.subquery())
+            if right_query.order_by or right_query.limit is not None:
+                right_sel = sqa.select(right_sel.subquery())
+
             # If either side is a subquery, get the original CompoundSelect
             # to allow calling sa.union/union_all again
             if isinstance(left_sel, sqa.sql.selectable.Subquery):
